@@ -1638,6 +1638,126 @@ def eval_bigversions(ctx: Ctx, case: dict):
     return fails
 
 
+
+# ------------------------------------------------------------------------------------------------
+# a pruning policy that is interrupted (raises an Exception, or a BaseException that is not one: Ctrl-C, task
+# cancellation) inside commit / reader close / set_pruning_policy: the zone must stay consistent and usable
+# ------------------------------------------------------------------------------------------------
+class ArmedPolicy:
+    def __init__(self, exc, at):
+        self.exc, self.at, self.calls, self.armed = exc, at, 0, True
+
+    def __call__(self, zone, version):
+        self.calls += 1
+        if self.armed and self.calls == self.at:
+            self.armed = False
+            raise self.exc("policy interrupted")
+        return True
+
+
+def eval_raisepol(ctx: Ctx, case: dict):
+    zk = case["zone"]
+    run = Run(zk)
+    fails = []
+    for tok in ["Mnone"] + case["prefix"]:
+        run.apply(tok)
+    exc = {"ValueError": ValueError, "BoomBase": BoomBase, "KeyboardInterrupt": KeyboardInterrupt}[case["exc"]]
+    z = run.zone
+    pol = ArmedPolicy(exc, case["at"])
+    op = case["op"]
+    what = f"{op} with a pruning policy that raises {case['exc']} on its call #{case['at']}"
+    raised = False
+    try:
+        if op == "P":
+            run.policy = ("default",)
+            z.set_pruning_policy(pol)
+        else:
+            z._pruning_policy = pol  # installed without pruning (set_pruning_policy itself prunes)
+            run.policy = ("default",)
+            if op == "C":
+                if run.wtxn is None:
+                    run.apply("w")
+                txn, run.wtxn = run.wtxn, None
+                run.modify(txn, 800 + case["at"], 9)
+                vid, d = txn.version.id, None
+                txn.commit()
+                # not interrupted: an ordinary commit
+                run.cid[dump_version(z._versions[-1])] = 800 + case["at"]
+                run.committed.append((vid, 800 + case["at"]))
+            else:
+                h = sorted(run.open_dump)[0]
+                run.open_dump.pop(h)
+                run.readers[h].rollback()
+    except exc:
+        raised = True
+    except Exception as e:  # noqa: BLE001
+        fails.append((f"C11/{zk}/interrupted-policy/raises", f"{what}: {type(e).__name__} {e}"))
+    ctx.count(f"raisepol.{zk}.{op}." + ("interrupted" if raised else "not-triggered"))
+    pol.armed = False
+
+    def bad(clause, msg):
+        fails.append((f"C11/{zk}/interrupted-policy/{clause}", f"{what}: {msg}"))
+
+    vs = list(z._versions)
+    ret = [(v.id, run.content_of(dump_version(v))) for v in vs]
+    if not vs or ret != run.committed[len(run.committed) - len(ret):]:
+        bad("retained-contiguous", f"retained {ret} is not a run ending the committed history {run.committed[-4:]} (an unpublished version is visible, or the newest is gone)")
+    if vs and z.nodes is not vs[-1].nodes:
+        bad("published", f"zone.nodes is not the node map of the newest retained version {vs[-1].id}")
+    if run.wtxn is None and z._write_txn is not None:
+        bad("write-not-ended", "the interrupted commit left its write transaction registered: every later writer() blocks")
+    for t in z._readers:
+        if not any(t.version is v for v in vs):
+            bad("pinned-retained", f"version {t.version.id} of an open reader is not retained ({[v.id for v in vs]})")
+    if sorted(id(run.readers[h]) for h in run.open_dump) != sorted(id(t) for t in z._readers):
+        bad("readers", "registered readers differ from the open ones")
+    for h, d0 in run.open_dump.items():
+        if dump_txn(run.readers[h]) != d0:
+            bad("snapshot-stable", f"reader {h} changed")
+    if not fails:
+        # the zone keeps working: a reader sees the last committed version, the next commit gets the next id
+        for tok in (["oL95"] if True else []) + ([] if run.wtxn is not None else ["w"]) + ["C850:8:1", "O95", "c95"]:
+            before = (list(z._versions), run.policy)
+            out = run.apply(tok)
+            if out.startswith("X"):
+                bad("unusable", f"afterwards {tok} raises {out[1:]}")
+                break
+            local = []
+            monitor(run, tok, out, before, local)
+            # an interrupted prune legitimately leaves prunable versions behind until the next operation that prunes
+            fails.extend(x for x in local if not (tok[0] in "ow" and x[0].endswith("pruning-exact/left-over")))
+    close_all(run)
+    seen = set()
+    for sig, msg in fails:
+        if sig not in seen:
+            seen.add(sig)
+            ctx.fail(sig, msg, {"kind": "raisepol", "case": case})
+    return fails
+
+
+def gen_raisepol(rng, zk):
+    h = gen_history(rng, zk)
+    h.pop("abs", None)
+    h.pop("ctor", None)
+    ops = [t for t in executable(h)["ops"] if t[0] not in "MPQ"][: rng.choice([4, 8, 14, 20])]
+    run = Run(zk)
+    for t in ["Mnone"] + ops:
+        run.apply(t)
+    has_reader = bool(run.open_dump)
+    close_all(run)
+    op = rng.choice(["C", "C", "P"] + (["c", "c"] if has_reader else []))
+    return {"kind": "raisepol", "zone": zk, "prefix": ops, "op": op, "at": rng.choice([1, 1, 2, 3]),
+            "exc": rng.choice(["ValueError", "BoomBase", "KeyboardInterrupt"])}
+
+
+RAISEPOL_BOUNDARY = [
+    {"prefix": ["w", "C1:1:1", "w", "C2:2:1"], "op": "C", "at": 1, "exc": "KeyboardInterrupt"},
+    {"prefix": ["w", "C1:1:1", "w", "C2:2:1"], "op": "C", "at": 2, "exc": "ValueError"},
+    {"prefix": ["oL1", "w", "C1:1:1", "w", "C2:2:1", "oL2"], "op": "c", "at": 1, "exc": "BoomBase"},
+    {"prefix": ["w", "C1:1:1", "w", "C2:2:1", "oI1:2"], "op": "P", "at": 1, "exc": "KeyboardInterrupt"},
+]
+
+
 class Hang(BaseException):
     pass
 
@@ -1668,6 +1788,8 @@ def eval_case(ctx: Ctx, case: dict):
             return eval_cow(ctx, case)
         if case["kind"] == "bigversions":
             return eval_bigversions(ctx, case)
+        if case["kind"] == "raisepol":
+            return eval_raisepol(ctx, case)
     except Exception as e:  # noqa: BLE001 - e.g. the zone constructor itself raises (the initial version is pruned away)
         import traceback
 
@@ -1821,6 +1943,10 @@ BOUNDARY = [
 
 
 def generate(ctx: Ctx, scale: int, rng):
+    for i in range(60 * scale):
+        c = gen_raisepol(rng, "btree" if i % 2 else "versioned")
+        ctx.case(case_key(c), True, sample=c if i < 2 else None)
+        eval_case(ctx, c)
     for i in range(120 * scale):
         c = gen_cow(rng, "btree" if i % 3 else "versioned")
         ctx.case(case_key(c), True, sample=c if i < 2 else None)
@@ -1837,7 +1963,7 @@ def generate(ctx: Ctx, scale: int, rng):
         c = gen_immhist(rng, "btree" if i % 3 else "versioned")
         ctx.case(case_key(c), True, sample=c if i < 2 else None)
         eval_case(ctx, c)
-    for i in range(1200 * scale):
+    for i in range(1100 * scale):
         zk = "versioned" if i % 2 == 0 else "btree"
         c = executable(gen_history(rng, zk))
         ctx.case(case_key(c), nontrivial(c), sample=c if len(c["ops"]) <= 12 else None)
@@ -1865,6 +1991,12 @@ def run(ctx: Ctx):
         c = {"kind": "bigversions", "zone": zk, "n": 400, "step": 9, "policy": pol}
         ctx.case(case_key(c))
         eval_case(ctx, c)
+    for zk in ZONES:
+        for b in RAISEPOL_BOUNDARY:
+            c = dict(b, kind="raisepol", zone=zk)
+            ctx.case(case_key(c))
+            eval_case(ctx, c)
+            ctx.count("boundary.raisepol")
     for zk in ZONES:
         for txns in COW_BOUNDARY:
             c = {"kind": "cow", "zone": zk, "txns": txns}
